@@ -1530,10 +1530,16 @@ fn exec_linewise(args: &Opts) {
 		if !args.files.is_empty() {
 			for path in &args.files {
 				let input = fs::read_to_string(path).unwrap_or_else(complain_and_exit);
+				let mut output = String::new();
 				for line in get_lines(&input) {
 					match execute(args,line, Some(path.clone())) {
 						Ok(mut new_line) => {
-							lines.append(&mut new_line);
+							if args.json {
+								lines.append(&mut new_line);
+							} else {
+								// Render line by line, like the multi-threaded path does
+								output.push_str(&format_output(args, new_line));
+							}
 						}
 						Err(e) => {
 							eprintln!("vicut: {e}");
@@ -1545,7 +1551,6 @@ fn exec_linewise(args: &Opts) {
 					json_data.push((path.clone(), std::mem::take(&mut lines)));
 					continue
 				}
-				let mut output = format_output(args, std::mem::take(&mut lines));
 				if args.edit_inplace {
 					// Written back only once every file has been processed (all or nothing)
 					pending_writes.push((path.clone(), std::mem::take(&mut output)));
